@@ -19,6 +19,8 @@ const intSentinel = int64(-0x5e471e15e471e1)
 
 func ints(s string) []int64 {
 	if shareSlices {
+		sliceMu.Lock()
+		defer sliceMu.Unlock()
 		if r, ok := intCache[s]; ok {
 			return r
 		}
@@ -38,7 +40,7 @@ func ints(s string) []int64 {
 	if trackSlices {
 		trackedInts = append(trackedInts, [2][]int64{full, append([]int64(nil), full...)})
 	}
-	if shareSlices && !cacheFrozen {
+	if shareSlices {
 		intCache[s] = r
 	}
 	return r
